@@ -4,6 +4,7 @@ CONSTANTS
   RuleIds = {"", "r1"}
   Versions = {"2.0"}
   ModeOf <- MCModeOf
+  RulesKeyedOnIdOnly = TRUE
   IdsIdentifyContent = TRUE
   InitScenarios = {"fresh"}
   InitDocs <- DocsEmptyId
